@@ -103,7 +103,7 @@ func init() {
 		ID:    "C14",
 		Level: "model_checking",
 		Rule: "every string up to the length bound over {quote, other quote, ASCII letter, 2-, 3- and 4-byte characters, space, LF} x quote in {',\",”} x the three quote states; " +
-			"oracle: Decode never panics, Decode(Encode(s))=s, and for the expression and CSV states the encoding followed by each tail in {EOF,' x',','} is read back as one token that decodes to s with the scanner left at the tail; plus every history of <=3 Encode/Decode calls with any of the three quote characters on ONE state instance, each result compared with a fresh instance; non-trivial = non-empty string",
+			"oracle: Decode never panics, Decode(Encode(s))=s, and for the expression and CSV states the encoding followed by each tail in {EOF,' x',','} is read back as one token that decodes to s with the scanner left at the tail; plus every history of <=3 Encode/Decode/NextToken calls (terminated and unterminated literals, any of the three quote characters) on ONE state instance, each result compared with a fresh instance; non-trivial = non-empty string",
 		Assume: []string{"one representative per UTF-8 width stands for the width class"},
 		Spaces: func(tier string) []fw.Space {
 			maxLen := 5
@@ -175,12 +175,18 @@ func init() {
 var c14HistStrings = []string{"a", "it's", "say \"hi\"", "”x”", "''", "\"\"", "'a''b'", "\"a\"\"b\""}
 
 type c14Op struct {
-	enc bool
-	q   rune
-	s   string
+	enc  bool
+	q    rune
+	s    string
+	next bool // NextToken over the stream s (terminated, unterminated, with a tail)
 }
 
+var c14HistStreams = []string{"'abc", "\"", "'a''", "'ok' x", "\"id\",1", "'it''s'", "\"a\nb"}
+
 func (o c14Op) String() string {
+	if o.next {
+		return fmt.Sprintf("NextToken(%q)", o.s)
+	}
 	if o.enc {
 		return fmt.Sprintf("Encode(%q,%q)", o.s, string(o.q))
 	}
@@ -193,9 +199,12 @@ func init() {
 	for _, enc := range []bool{true, false} {
 		for _, q := range c14Quotes {
 			for _, s := range c14HistStrings {
-				c14Ops = append(c14Ops, c14Op{enc, q, s})
+				c14Ops = append(c14Ops, c14Op{enc: enc, q: q, s: s})
 			}
 		}
+	}
+	for _, s := range c14HistStreams {
+		c14Ops = append(c14Ops, c14Op{s: s, next: true})
 	}
 }
 
@@ -210,6 +219,15 @@ func c14History(c *fw.Ctx, state string, seq []int) {
 					out = "panic: " + panicShort(p)
 				}
 			}()
+			if o.next {
+				sc := rio.NewStringScanner(o.s)
+				tok := s.NextToken(sc, nil)
+				rest := []rune{}
+				for r := sc.Read(); r != -1 && len(rest) < len(o.s)+2; r = sc.Read() {
+					rest = append(rest, r)
+				}
+				return fmt.Sprintf("token %s %q at %d:%d, rest %q", tokTypeName(tok.Type()), tok.Value(), tok.Line(), tok.Column(), string(rest))
+			}
 			if o.enc {
 				return s.EncodeString(o.s, o.q)
 			}
